@@ -291,6 +291,17 @@ def one_case(ctx, case, shape, els):
     if kback.shape != (m, 6) or tback.shape != (m, 6) or Mv.shape != (m,) or fv.shape != (m,):
         gviolate(ctx, f"shape:trs.kepler:{shape}", f"shapes: kepler {np.asarray(state.kepler).shape}, M {Mv.shape}, f {fv.shape} for {m} states", case)
         return
+    # raw shapes (no rows_of): a conversion keeps the shape of what it was given ((1, 6) stays (1, 6) since /repo 60f7c07),
+    # M and f have one value per state
+    want = {"1d": ((6,), ()), "1xk": ((1, 6), (1,)), "nxk": ((m, 6), (m,))}[shape]
+    raw = {"kepler.trs": np.asarray(kep.trs).shape, "trs.kepler": np.asarray(state.kepler).shape, "trs.kepler.trs": np.asarray(state.kepler.trs).shape,
+           "kepler.trs.kepler": np.asarray(kep.trs.kepler).shape}
+    for name, got in raw.items():
+        if got != want[0]:
+            gviolate(ctx, f"raw-shape:{name}:{shape}", f"{name} of a PosVel of shape {want[0]} has shape {got}", {**case, "what": name})
+    for name, got in (("M", np.asarray(kep.M).shape), ("f", np.asarray(kep.f).shape), ("trs.kepler.M", np.asarray(state.kepler.M).shape)):
+        if got != want[1]:
+            gviolate(ctx, f"raw-shape:{name}:{shape}", f"{name} of {want[0]} Kepler elements has shape {got}, expected {want[1]}", {**case, "what": name})
     # ---------------- correspondence
     lines = []
     for i, el in enumerate(els):
